@@ -367,13 +367,39 @@ class CallMixin:
         if spec.get("draw") and not is_draw and recv.locs and not recv.refs:
             is_draw = any(steps and steps[-1] == ".rng" for _, steps in recv.locs)
         if is_draw:
-            res = res.add_tags("random")
+            res = res.add_tags("random").add_deps([("draw", r) for r in recv.refs] or [("draw", None)])
             self.emit("draw", node, gen=recv, method=name, args=args, kwargs=kwargs, result=res)
         self.emit("ext", node, name="." + name, recv=recv, args=args, kwargs=kwargs, starkw=starkw, result=res,
                   spec=spec)
         return res
 
+    def is_label_collection(self, v: Val) -> bool:
+        if "labels" in v.tags:
+            return True
+        for r in v.refs:
+            o = self.obj(r)
+            if o.cls == "dict":
+                if o.keys is not None and "label" in o.keys.tags:
+                    return True
+            elif o.elem is not None and "label" in o.elem.tags:
+                return True
+        return False
+
     def _ext_result(self, spec, q, recv, args, kwargs, deps, node) -> Val:
+        res = self._ext_result0(spec, q, recv, args, kwargs, deps, node)
+        if spec.get("labelflow"):
+            first = recv if recv is not None else (args[0] if args else None)
+            if first is not None and self.is_label_collection(first):
+                res = res.add_tags("labels")
+                for r in res.refs:
+                    o = self.obj(r)
+                    if o.region == "fresh" and o.cls in ("list", "set", "tuple") and (
+                            o.elem is None or "label" not in o.elem.tags):
+                        mo = self.mobj(r)
+                        mo.elem = (mo.elem or Val()).add_tags("label")
+        return res
+
+    def _ext_result0(self, spec, q, recv, args, kwargs, deps, node) -> Val:
         ret = spec.get("ret", "fresh")
         first = recv if recv is not None else (args[0] if args else None)
         tags = set()
@@ -381,6 +407,7 @@ class CallMixin:
             tags.add(spec["tag"])
         if spec.get("procdep"):
             tags.add("procdep")
+            deps = deps | {("procdep", q)}
         if ret == "fresh":
             if spec.get("cls"):
                 o = self.alloc(spec["cls"], self.fresh_region(), node, label=q)
@@ -497,6 +524,8 @@ class CallMixin:
                 o.elem = join(o.elem, stored)
                 self.adopt(oid, "[*]", stored)
             o.dictkeys = None
+            if kind in ("mutcall:pop", "mutcall:clear", "mutcall:popitem", "del"):
+                o.mustkeys = {}
         if not targets:
             return
         self.stats["stores"] += 1
